@@ -82,9 +82,14 @@ def registry_block(_b):
                     got = Adsorbate.find(v)
                 except ParameterError:
                     got = None
+                except Exception as exc:
+                    got = f"{type(exc).__name__}"
                 if got is not by_name.get(n):
-                    bad_find.append((v, n, getattr(got, 'name', None)))
-                matches = [a.name for a in pygaps.ADSORBATE_LIST if a == v]
+                    bad_find.append((v, n, getattr(got, 'name', got)))
+                try:
+                    matches = [a.name for a in pygaps.ADSORBATE_LIST if a == v]
+                except Exception as exc:
+                    matches = [f"{type(exc).__name__}"]
                 if matches != [n]:
                     bad_unique.append((v, matches))
             try:
@@ -107,6 +112,8 @@ def registry_block(_b):
             out = 'return'
         except ParameterError:
             out = 'ParameterError'
+        except Exception as exc:
+            out = type(exc).__name__
         obs.append(static_ob(f"{P}/core.adsorbate.Adsorbate.find/raises.ParameterError_unknown_name/{bogus or 'empty'}", out == 'ParameterError', out, backend='eval'))
     # str.lower on the shipped data: ASCII only (the case lemma)
     non_ascii = [x for s in sets.values() for x in s if not x.isascii()]
